@@ -148,8 +148,15 @@ pub fn run(a: &Args) {
         check_value(&mut o, &t, &v, "shape");
     }
     special(&mut o, &mut r);
+    for (t, v) in gen::boundary_cases() {
+        check_value(&mut o, &t, &v, "boundary");
+    }
+    for l in [127usize, 128, 16383, 16384, 16385] {
+        let v = Val::CollectStr(vec![vec![b'q'; l / 2], vec![b'r'; l - l / 2]]);
+        check_value(&mut o, &Ty::Str, &v, "boundary_collect_str");
+    }
     for (k, n) in kinds {
         o.bump_by(&format!("kind:{}", k), n);
     }
-    o.finish(&a.summary, "random type shapes over all 29 serde kinds (depth <= 4) with boundary-biased values, plus per-kind sweeps (entire domains of u8/i8, and of u16/i16/char in thorough), length-unknown sequences and maps, collect_str, usize/isize; distinct = distinct printed value, non-trivial = encodes to at least one byte kind (not unit)");
+    o.finish(&a.summary, "random type shapes over all 29 serde kinds (depth <= 4) with boundary-biased values, lengths and variant indices at 126..129 and 16383..16385, plus per-kind sweeps (entire domains of u8/i8, and of u16/i16/char in thorough), length-unknown sequences and maps, collect_str, usize/isize; distinct = distinct printed value, non-trivial = encodes to at least one byte kind (not unit)");
 }
